@@ -17,6 +17,13 @@
 (* part writes "MAIN", the end filter "END NP cnt".                        *)
 (* An action-less filter whose pattern is true writes the packet, as       *)
 (* modified so far, to the output.                                         *)
+(* Patterns that are not booleans (npint: NP % m, cntval: cnt - written    *)
+(* only in the LAST filter of a program): a truthy one runs its action; a  *)
+(* falsey one - or any one without an action - is reported ("filter        *)
+(* expression must evaluate to a boolean", event FAULT) and selects        *)
+(* nothing; the packet still counts: NP of the packets after it is their   *)
+(* position in the stream.  (What happens to the filters after a reported  *)
+(* one is not documented; the generator leaves none.)                      *)
 (***************************************************************************)
 EXTENDS Packet
 
@@ -43,6 +50,9 @@ PatHolds(c, p, i, cnt, raw) ==
     [] p.t = "cmp" -> Cmp(p.op, Var(c, p.v, i, cnt), p.k)
     [] p.t = "ethtype" -> EthType(raw) = p.k
     [] p.t = "ttl" -> Cmp(p.op, Ttl(raw), p.k)
+    [] p.t = "npint" -> i % p.m # 0
+    [] p.t = "cntval" -> cnt # 0
+NonBool(p) == p.t \in {"npint", "cntval"}
 
 (* The state: phase "main" | "hdr" | "pkt" | "flt" | "end" | "done"; i, j packet and filter   *)
 (* index; cnt the program's counter; cur the current packet's bytes as modified so far; log    *)
@@ -63,7 +73,9 @@ Step(c, s) ==
          IF s.j > NF(c) THEN [s EXCEPT !.phase = "pkt"]
          ELSE LET f == c.prog.filters[s.j]
                   s1 == [s EXCEPT !.j = s.j + 1]
-              IN IF ~PatHolds(c, f.pat, s.i, s.cnt, s.cur) THEN s1
+              IN IF NonBool(f.pat) /\ (f.act.t = "none" \/ ~PatHolds(c, f.pat, s.i, s.cnt, s.cur))
+                 THEN [s1 EXCEPT !.log = Append(s.log, <<"FAULT">>)]       \* reported; nothing selected, nothing run
+                 ELSE IF ~PatHolds(c, f.pat, s.i, s.cnt, s.cur) THEN s1
                  ELSE (CASE f.act.t = "none" ->     \* action-less: write the packet as modified so far
                              [s1 EXCEPT !.out = IF c.skip THEN s.out ELSE Append(s.out, c.in[s.i].hdr \o s.cur)]
                         [] f.act.t = "count" ->
